@@ -497,6 +497,14 @@ def gen_listeners(rng, N, n_trials_hint):
     return out
 
 
+_NUMERIC_LIBS = ("scipy" + os.sep + "interpolate", "scipy" + os.sep + "linalg", "numpy" + os.sep + "linalg", os.sep + "sklearn" + os.sep)
+
+
+def _is_numeric_degeneracy(exc):
+    import traceback as _tb
+    return any(any(lib in fr.filename for lib in _NUMERIC_LIBS) for fr in _tb.extract_tb(exc.__traceback__))
+
+
 _RES_RE = {
     "nglobal": re.compile(r"global iteration count:\s+(\S+)"),
     "nlocal": re.compile(r"local iteration count:\s+(\S+)"),
@@ -575,7 +583,18 @@ class C13(SolverSuite):
                                after_solve_iters=rng.choice([0, 0, rng.randint(1, 4)]))
         if rng.random() < 0.2:
             ops.append({"a": "S0", "op": "solve"})
-        return G.base_plan(self.prop, run_seed, {"S0": spec}, ops, clock=G.gen_clock(rng))
+        actors = {"S0": spec}
+        if rng.random() < 0.25:
+            # a second solver with its own recording listeners, interleaved: each listener must hear its own solver only
+            s1 = G.gen_actor(rng, max_iters=12, refine=False, shipped_prob=0.0)
+            s1["listeners"] = [{"kind": "recording", "overrides": list(ALL_CB)}]
+            if rng.random() < 0.5:
+                s1["listeners"].append({"kind": "recording", "overrides": [rng.choice(ALL_CB)]})
+            s1["params"]["itersLimit"] = min(s1["params"]["itersLimit"], 12)
+            actors["S1"] = s1
+            ops1 = G.gen_single_ops(rng, "S1", rng.randint(0, 8), with_solve=rng.random() < 0.8)
+            ops = interleave(rng, [ops, ops1])
+        return G.base_plan(self.prop, run_seed, actors, ops, clock=G.gen_clock(rng))
 
     def check(self, plan):
         rep = Report()
@@ -598,8 +617,9 @@ class C13(SolverSuite):
         for mk in marks:
             if mk["raised"]:
                 exc = mk["exc"]
-                f = os.path.abspath(_innermost_file(exc)) if exc is not None else ""
-                if any(t in f for t in _THIRD_PARTY):
+                if exc is not None and _is_numeric_degeneracy(exc):
+                    # interp1d / Rbf / MLP rejecting degenerate search data (duplicate abscissae, singular
+                    # matrix, too few points) in the 'interpolation'/'approximation' painter modes
                     rep.inconclusive["painter_numeric"] += 1
                     return rep
                 if "outside of interval" in mk["raised"]:
@@ -610,74 +630,86 @@ class C13(SolverSuite):
         if a.aborted:
             rep.inconclusive["aborted_" + a.aborted] += 1
             return rep
+        def notifications(a, spec, marks):
+            real = [c for c in a.calls if c.phase != "probe"]
+            # (2) notification history of every recording listener
+            for lid, ls in enumerate(spec["listeners"]):
+                if ls["kind"] != "recording":
+                    continue
+                ov = set(ls["overrides"])
+                evs = [e for e in a.cb_events if e[1] == lid]
+                if "BeforeMethodStart" in ov:
+                    bms = [e for e in evs if e[2] == "BeforeMethodStart"]
+                    if real and len(bms) != 1:
+                        bad("before_start_count", "BeforeMethodStart delivered %d times (listener %d), expected once" % (len(bms), lid))
+                    elif bms and bms[0][3]["n_calls_before"] != 0:
+                        bad("before_start_order", "BeforeMethodStart delivered after %d objective evaluations" % bms[0][3]["n_calls_before"])
+                    elif bms and real and not bms[0][0] < real[0].seq:
+                        bad("before_start_order", "BeforeMethodStart delivered after the first trial")
+                for mk in marks:
+                    kind = mk["op"]["op"]
+                    oe = [e for e in a.cb_events[mk["ev_before"]:mk["ev_after"]] if e[1] == lid]
+                    ends = [e for e in oe if e[2] == "OnEndIteration"]
+                    stops = [e for e in oe if e[2] == "OnMethodStop"]
+                    op_calls = [c for c in real[mk["calls_before"]:mk["calls_after"]]]
+                    if "OnEndIteration" in ov:
+                        if kind == "iterate":
+                            if len(ends) != 1:
+                                bad("end_iteration_count", "DoGlobalIteration(%d) delivered OnEndIteration %d times, expected once" % (mk["op"]["k"], len(ends)))
+                                return True
+                            ys = ends[0][3].get("ys")
+                            want = [c.y for c in op_calls if c.completed]
+                            if ys != want:
+                                bad("end_iteration_points", "OnEndIteration after DoGlobalIteration(%d) carried points %r, the call's new trials are %r" % (mk["op"]["k"], ys, want))
+                                return True
+                            zs = ends[0][3].get("zs")
+                            if zs != [c.value for c in op_calls if c.completed]:
+                                bad("end_iteration_points", "OnEndIteration carried values %r, objective returned %r" % (zs, [c.value for c in op_calls]))
+                                return True
+                        elif kind == "solve":
+                            got = []
+                            for e in ends:
+                                got.extend(e[3].get("ys") or [])
+                                if len(e[3].get("ys") or []) != 1:
+                                    bad("end_iteration_points", "inside Solve an OnEndIteration carried %d points, expected 1" % len(e[3].get("ys") or []))
+                                    return True
+                            nloc = len([c for c in op_calls if c.phase == "local"])
+                            want = [c.y for c in op_calls if c.completed][:len(op_calls) - nloc] if a.brackets else None
+                            if want is None:
+                                # no phase information without brackets: the delivered points must be a prefix of the op's calls
+                                want = [c.y for c in op_calls if c.completed][:len(got)]
+                                if not spec["params"].get("refineSolution") and len(got) != len(op_calls):
+                                    want = [c.y for c in op_calls if c.completed]
+                            if got != want:
+                                bad("end_iteration_points", "during Solve OnEndIteration delivered %d trials %r..., the global search evaluated %d: %r..." % (len(got), got[:3], len(want), want[:3]))
+                                return True
+                        elif ends:
+                            bad("end_iteration_count", "%s delivered OnEndIteration" % kind)
+                    if "OnMethodStop" in ov:
+                        if kind == "solve":
+                            if len(stops) != 1:
+                                bad("method_stop_count", "Solve delivered OnMethodStop %d times, expected once" % len(stops))
+                                return True
+                            pl = stops[0][3]
+                            if pl.get("nargs") != 3:
+                                bad("method_stop_args", "OnMethodStop received %r arguments" % pl.get("nargs"))
+                            elif pl.get("sol") is not None and mk["ret"] is not None and tuple(pl["sol"]) != tuple(mk["ret"]):
+                                bad("method_stop_solution", "OnMethodStop carried solution %r, Solve returned %r" % (pl["sol"], mk["ret"]))
+                            if pl["n_calls_before"] != mk["calls_after"] and a.brackets:
+                                bad("method_stop_order", "OnMethodStop delivered before the last evaluation (%d of %d done)" % (pl["n_calls_before"], mk["calls_after"]))
+                        elif stops:
+                            bad("method_stop_count", "%s delivered OnMethodStop" % kind)
+            return False
+        if "S1" in plan["actors"]:
+            a1 = w.actors["S1"]
+            m1 = mons[0].op_marks.get("S1", [])
+            if a1.created and not a1.aborted and not any(mk["raised"] for mk in m1):
+                notifications(a1, plan["actors"]["S1"], m1)
+                rep.probes["second_solver_with_listeners"] += 1
+                if rep.violations:
+                    return rep
+        notifications(a, spec, marks)
         real = [c for c in a.calls if c.phase != "probe"]
-        # (2) notification history of every recording listener
-        for lid, ls in enumerate(spec["listeners"]):
-            if ls["kind"] != "recording":
-                continue
-            ov = set(ls["overrides"])
-            evs = [e for e in a.cb_events if e[1] == lid]
-            if "BeforeMethodStart" in ov:
-                bms = [e for e in evs if e[2] == "BeforeMethodStart"]
-                if real and len(bms) != 1:
-                    bad("before_start_count", "BeforeMethodStart delivered %d times (listener %d), expected once" % (len(bms), lid))
-                elif bms and bms[0][3]["n_calls_before"] != 0:
-                    bad("before_start_order", "BeforeMethodStart delivered after %d objective evaluations" % bms[0][3]["n_calls_before"])
-                elif bms and real and not bms[0][0] < real[0].seq:
-                    bad("before_start_order", "BeforeMethodStart delivered after the first trial")
-            for mk in marks:
-                kind = mk["op"]["op"]
-                oe = [e for e in a.cb_events[mk["ev_before"]:mk["ev_after"]] if e[1] == lid]
-                ends = [e for e in oe if e[2] == "OnEndIteration"]
-                stops = [e for e in oe if e[2] == "OnMethodStop"]
-                op_calls = [c for c in real[mk["calls_before"]:mk["calls_after"]]]
-                if "OnEndIteration" in ov:
-                    if kind == "iterate":
-                        if len(ends) != 1:
-                            bad("end_iteration_count", "DoGlobalIteration(%d) delivered OnEndIteration %d times, expected once" % (mk["op"]["k"], len(ends)))
-                            return rep
-                        ys = ends[0][3].get("ys")
-                        want = [c.y for c in op_calls if c.completed]
-                        if ys != want:
-                            bad("end_iteration_points", "OnEndIteration after DoGlobalIteration(%d) carried points %r, the call's new trials are %r" % (mk["op"]["k"], ys, want))
-                            return rep
-                        zs = ends[0][3].get("zs")
-                        if zs != [c.value for c in op_calls if c.completed]:
-                            bad("end_iteration_points", "OnEndIteration carried values %r, objective returned %r" % (zs, [c.value for c in op_calls]))
-                            return rep
-                    elif kind == "solve":
-                        got = []
-                        for e in ends:
-                            got.extend(e[3].get("ys") or [])
-                            if len(e[3].get("ys") or []) != 1:
-                                bad("end_iteration_points", "inside Solve an OnEndIteration carried %d points, expected 1" % len(e[3].get("ys") or []))
-                                return rep
-                        nloc = len([c for c in op_calls if c.phase == "local"])
-                        want = [c.y for c in op_calls if c.completed][:len(op_calls) - nloc] if a.brackets else None
-                        if want is None:
-                            # no phase information without brackets: the delivered points must be a prefix of the op's calls
-                            want = [c.y for c in op_calls if c.completed][:len(got)]
-                            if not spec["params"].get("refineSolution") and len(got) != len(op_calls):
-                                want = [c.y for c in op_calls if c.completed]
-                        if got != want:
-                            bad("end_iteration_points", "during Solve OnEndIteration delivered %d trials %r..., the global search evaluated %d: %r..." % (len(got), got[:3], len(want), want[:3]))
-                            return rep
-                    elif ends:
-                        bad("end_iteration_count", "%s delivered OnEndIteration" % kind)
-                if "OnMethodStop" in ov:
-                    if kind == "solve":
-                        if len(stops) != 1:
-                            bad("method_stop_count", "Solve delivered OnMethodStop %d times, expected once" % len(stops))
-                            return rep
-                        pl = stops[0][3]
-                        if pl.get("nargs") != 3:
-                            bad("method_stop_args", "OnMethodStop received %r arguments" % pl.get("nargs"))
-                        elif pl.get("sol") is not None and mk["ret"] is not None and tuple(pl["sol"]) != tuple(mk["ret"]):
-                            bad("method_stop_solution", "OnMethodStop carried solution %r, Solve returned %r" % (pl["sol"], mk["ret"]))
-                        if pl["n_calls_before"] != mk["calls_after"] and a.brackets:
-                            bad("method_stop_order", "OnMethodStop delivered before the last evaluation (%d of %d done)" % (pl["n_calls_before"], mk["calls_after"]))
-                    elif stops:
-                        bad("method_stop_count", "%s delivered OnMethodStop" % kind)
         if rep.violations:
             return rep
         # (3) non-interference: twin with no listeners at all, fresh process
@@ -749,12 +781,14 @@ FAULT_KINDS = ["ValueError", "ZeroDivisionError", "MemoryError", "StopIteration"
 _TWIN_CACHE = {}
 
 
-def _twin_for(spec):
-    key = json.dumps(spec, sort_keys=True)
+def _twin_for(spec, ops=None):
+    """Fault-free reference run of the same spec under the same driver ops (default: Solve only)."""
+    ops = [{k: v for k, v in o.items() if k != "a"} for o in (ops or [{"op": "create"}, {"op": "solve"}])]
+    key = json.dumps([spec, ops], sort_keys=True)
     if key not in _TWIN_CACHE:
-        if len(_TWIN_CACHE) > 64:
+        if len(_TWIN_CACHE) > 256:
             _TWIN_CACHE.clear()
-        _TWIN_CACHE[key] = fork_call(solo_run, spec, [{"op": "create"}, {"op": "solve"}])
+        _TWIN_CACHE[key] = fork_call(solo_run, spec, ops)
     return _TWIN_CACHE[key]
 
 
@@ -912,7 +946,8 @@ class C16(SolverSuite):
 
         def bad(clause, msg, locus="fault"):
             rep.violations.append(core.Violation(P, clause, msg, locus))
-        twin = _twin_for(spec)
+        # the reference run uses the very same driver ops (so this check does not rest on C11)
+        twin = _twin_for(spec, [o for o in plan["ops"] if o["a"] == "S0"])
         rep.n_exec = 2
         if spec["params"].get("refineSolution") and not (twin["ops"] and twin["ops"][0].get("raised")) and not twin["aborted"]:
             return self.check_refine(plan, rep, twin, bad)
